@@ -180,7 +180,7 @@ def gen_reader_case(rng):
             for _ in range(n_samples):
                 g = rng.choice(GTS if odd_ploidy else GTS[:9])
                 if odd_ploidy and rng.random() < 0.05:
-                    g = "/".join(["0"] * rng.choice([15, 16]))
+                    g = "/".join(["0"] * rng.choice([14, 15, 16]))
                 calls.append({"GT": g, "DP": str(rng.randrange(1, 50))} if has_gt else {"DP": str(rng.randrange(1, 50))})
             recs.append(dict(chrom=c, pos=p - 1, ref=ref, alts=alts, format=["GT", "DP"] if has_gt else ["DP"], calls=calls,
                              info="END=%d" % (p + 3) if kind == "sym" else "."))
@@ -209,6 +209,9 @@ def real_reader_rows(path, only_snvs):
         return "VcfNotSortedError"
     except PloidyError:
         return "PloidyError"
+    except RuntimeError as e:
+        # the Genotype constructor refuses 15 alleles, which the PloidyError test (> 15) lets through
+        return "RuntimeError" if "Maximum ploidy" in str(e) else "RuntimeError: " + str(e)
     finally:
         pysam.set_verbosity(verbosity)
 
